@@ -49,6 +49,15 @@ def gen_source(rng):
             if head in ("CALL", "RETURN"):
                 ln = ln.replace("R5", "R12").replace("R3", "R12").replace("R2", "R13")
             out.append(ln)
+        if rng.random() < 0.3:
+            # calls and returns whose two operands are one register, or whose second operand is FP itself: the order of
+            # the two exchanges shows (seed C06h read all three registers first and wrote them afterwards)
+            k = rng.randrange(1000)
+            a, b = rng.choice([("R12", "R12"), ("R12", "R14"), ("R13", "R13"), ("R14", "R14"), ("R5", "R14"), ("R14", "R13")])
+            op = rng.choice(["CALL", "RETURN"])
+            out += ["SET(%s, 0x%x)" % (a, rng.randrange(65536)), "SET(R14, 0x%x)" % rng.randrange(65536),
+                    "SET(%s, alias%d)" % (b, k), "%s(%s, %s)" % (op, a, b), "LABEL(alias%d)" % k,
+                    "MOVE(R6, R12)", "MOVE(R7, R13)", "MOVE(R8, R14)", "MOVE(R9, R5)"]
         if rng.random() < 0.7:
             out.append("HALT()")
         text = "\n".join(out) + "\n"
